@@ -86,6 +86,23 @@ void h_svec_ops(void)
 		CHECK_SEQ(svec_size(&v), SV_CONT(&v), v._capacity, "small_vector");
 	}
 	FRGV_CANARY();
+	/* epilogue on the reached state: copy (element-wise) and move (swap of the representations) */
+	struct svec c; memset(&c, 0, sizeof(c)); svec_ctor_copy(&c, &v);
+	__CPROVER_assert(svec_size(&c) == rn, "small_vector copy has the same size");
+	for (size_t q = 0; q < REFMAX; q++) if (q < rn) __CPROVER_assert(SV_CONT(&c)[q].live == 1 && SV_CONT(&c)[q].self == &SV_CONT(&c)[q] && SV_CONT(&c)[q].v == ref[q], "small_vector copy holds equal, properly constructed elements");
+#ifndef SVEC_MOVE_INLINE
+	/* moving a small_vector whose elements live in the inline storage relocates them bytewise (known finding svec-move-relocates-inline): the
+	 * deciding runs move only representations that own a heap block or hold no element */
+	if (c._capacity > 4 || rn == 0)
+#endif
+	{
+		struct svec m; memset(&m, 0, sizeof(m)); svec_ctor_move(&m, &c);
+		__CPROVER_assert(svec_size(&m) == rn && svec_size(&c) == 0, "small_vector move transfers the elements and leaves the source empty");
+		for (size_t q = 0; q < REFMAX; q++) if (q < rn) __CPROVER_assert(SV_CONT(&m)[q].live == 1 && SV_CONT(&m)[q].self == &SV_CONT(&m)[q] && SV_CONT(&m)[q].v == ref[q],
+			"lifetime: small_vector move holds the same elements, none of them relocated bytewise (an element's address changes only through its move constructor)");
+		svec_dtor(&m);
+	}
+	svec_dtor(&c);
 	svec_dtor(&v);
 	FRGV_NONE_LIVE();
 }
